@@ -23,7 +23,7 @@ SPEC = dict(
     assumptions=["packaging decides validity/equality of PEP 440 versions; canonical spelling is NOT demanded "
                  "(1.0.a0 is acceptable) - only the statement's clauses are asserted"],
     required=["lib_checks", "cli_pep440_lines", "file_occurrences_checked", "tags:alpha", "tags:final", "tags:post",
-              "tags:dev", "zero_padded_cases"],
+              "tags:dev", "zero_padded_cases", "show_pep440_values_checked"],
     anchors=[("v2patterns", "_convert_to_pep440"), ("version", "to_pep440"), ("v2patterns", "normalize_pattern")],
 )
 
@@ -69,6 +69,8 @@ def classify(p, what, mods=None, state=None):
 def cases(ctx):
     for _ in range(ctx.size(30000, 1000000)):
         yield {"kind": "lib", "seed": ctx.rng.getrandbits(48)}
+    for _ in range(ctx.size(480, 12000)):
+        yield {"kind": "show", "seed": ctx.rng.getrandbits(48)}
     for _ in range(ctx.size(800, 20000)):
         yield {"kind": "file", "seed": ctx.rng.getrandbits(48)}
 
@@ -138,6 +140,59 @@ def check_one(ctx, mods, p, v_text, case, level="lib"):
     return x
 
 
+def run_show(ctx, case, R, mods, tdy):
+    """`bumpver show` / `show --environ`: the PEP440 value printed next to the current version denotes that version,
+    whether it comes from the config file or from a newer VCS tag (fake git)."""
+    p = gen.gen_pattern(R, decorate=False, pep_bias=True)
+    if " " in p:
+        raise harness.Skip("space-in-pattern")
+    ast = ref.parse_pattern(p)
+    names = list(ref.parts_in(ast))
+    texts = []
+    for _ in range(2):
+        _d, st0 = gen.gen_state(R, names)
+        rs = gen.reachable(ast, st0, tdy)
+        if rs is None or ref.n_full_parses(ast, rs[0]) != 1 or projects._week53(names, rs[1]):
+            raise harness.Skip("unreachable-state")
+        try:
+            Version(rs[0])
+        except InvalidVersion:
+            raise harness.Skip("version-not-pep440")
+        texts.append(rs[0])
+    cfg_v, tag_v = sorted(texts, key=Version)
+    if R.random() < 0.3:
+        cfg_v, tag_v = tag_v, cfg_v
+    cfg = (f"[bumpver]\ncurrent_version = {projects.toml_str(cfg_v)}\nversion_pattern = {projects.toml_str(p)}\n"
+           f"tag_scope = \"{R.choice(['default', 'global', 'branch'])}\"\n\n[bumpver.file_patterns]\n"
+           "\"bumpver.toml\" = ['current_version = \"{version}\"']\n")
+    d = harness.new_project({"bumpver.toml": cfg})
+    fake = harness.FakeVCS(d, "git")
+    try:
+        fake.set_out("tag-list", tag_v + "\nnot-a-version\n")
+        fake.set_out("tag-merged", tag_v + "\n")
+        for args, cur_key, pep_key in ((["show", "--no-fetch"], "Current Version: ", "PEP440         : "),
+                                       (["show", "--no-fetch", "--environ"], "CURRENT_VERSION=", "PEP440_VERSION=")):
+            res = harness.invoke(args, cwd=d, env=fake.env)
+            if res.exit_code != 0:
+                ctx.count("show_failed")
+                continue
+            cur, pep = res.stdout_value(cur_key), res.stdout_value(pep_key)
+            ctx.counters["show_pep440_values_checked"] += 1
+            ok = False
+            try:
+                ok = pep is not None and Version(pep) == Version(cur)
+            except InvalidVersion:
+                ok = False
+            if not ok and not DASH_NUM_RE.search(p):
+                ctx.violation("other:show_pep440_value_differs", f"{args}: current version {cur!r} but PEP440 value {pep!r} "
+                              f"(config {cfg_v!r}, tag {tag_v!r}, pattern {p!r})", case=case)
+        ctx.evaluated((ref.shape(ast), "show", Version(tag_v) > Version(cfg_v)),
+                      sample={"pattern": p, "config": cfg_v, "tag": tag_v})
+    finally:
+        harness.rm_dir(d)
+        fake.destroy()
+
+
 def run_case(ctx, case):
     mods = updates.bvmods()
     tdy = updates.today()
@@ -150,6 +205,8 @@ def run_case(ctx, case):
         ctx.evaluated(("pinned", case["p"]))
         return
     R = random.Random(case["seed"])
+    if case["kind"] == "show":
+        return run_show(ctx, case, R, mods, tdy)
     if case["kind"] == "lib":
         p = gen.gen_pattern(R, decorate=False, pep_bias=True)
         ast = ref.parse_pattern(p)
